@@ -286,8 +286,98 @@ fn cp_roundtrip_pkg(id: i32, text: &str, mode: &str) -> Sx {
     Sx::L(vec![Sx::sym("ok"), Sx::boolean(db_ok), Sx::boolean(sum_ok), Sx::boolean(cp_ok)])
 }
 
+/// C16: save the package, open the saved bytes on a fresh counting medium, use every read operation, close in the
+/// given mode; reports (write calls issued to the medium by the whole session, bytes identical afterwards)
+fn readonly_session(st: &mut State, mode: &str) -> Sx {
+    let p = st.pkg.take().expect("harness: no package");
+    let bytes = match p.into_inner() {
+        Ok(m) => m.snapshot(),
+        Err(_) => return Sx::sym("into_inner_err"),
+    };
+    let medium = Medium::new(bytes.clone());
+    let handle = medium.handle();
+    let mut q = match Package::open(medium.clone()) {
+        Ok(q) => q,
+        Err(_) => return Sx::err(),
+    };
+    let _ = q.package_type();
+    let _ = q.database_codepage();
+    let _ = sorted_tables(&q);
+    let _ = all_rows_sx(&mut q);
+    let names: Vec<String> = q.tables().map(|t| t.name().to_string()).collect();
+    for n in names.iter() {
+        let _ = q.has_table(n);
+        let _ = q.get_table(n).map(|t| t.primary_key_indices());
+        if let Some(first) = names.first() {
+            // a join with a constant condition, and one naming a column that does not exist
+            let j = Select::table(first.clone()).inner_join(Select::table(n.clone()), msi::Expr::boolean(true));
+            let _ = select_sx(&mut q, j);
+            let j = Select::table(first.clone()).left_join(Select::table(n.clone()), msi::Expr::col("Nope.Nope"));
+            let _ = select_sx(&mut q, j);
+        }
+    }
+    let _ = stream_data_sx(&mut q);
+    let _ = q.has_stream("nope");
+    let _ = q.read_stream("nope").is_ok();
+    let _ = q.has_digital_signature();
+    let _ = summary_sx(&q);
+    match mode {
+        "flush" => {
+            if q.flush().is_err() {
+                return Sx::sym("flush_err");
+            }
+            let snap = medium.snapshot();
+            let w = handle.borrow().writes;
+            std::mem::forget(q);
+            let _ = open_bytes(st, bytes.clone());
+            return Sx::ok(Sx::L(vec![Sx::I(w as i128), Sx::boolean(snap == bytes)]));
+        }
+        "into_inner" => {
+            if q.into_inner().is_err() {
+                return Sx::sym("into_inner_err");
+            }
+        }
+        _ => drop(q),
+    }
+    let w = handle.borrow().writes;
+    let equal = medium.snapshot() == bytes;
+    let _ = open_bytes(st, bytes);
+    Sx::ok(Sx::L(vec![Sx::I(w as i128), Sx::boolean(equal)]))
+}
+
+/// C11: save the package, add the two digital-signature streams with the cfb crate only, open the result
+fn add_signature(st: &mut State) -> Sx {
+    let p = st.pkg.take().expect("harness: no package");
+    let bytes = match p.into_inner() {
+        Ok(m) => m.snapshot(),
+        Err(_) => return Sx::sym("into_inner_err"),
+    };
+    let mut comp = cfb::CompoundFile::open(Cursor::new(bytes)).expect("harness: cfb open");
+    for (name, data) in [("\u{5}DigitalSignature", vec![1u8, 2, 3]), ("\u{5}MsiDigitalSignatureEx", vec![4u8, 5])] {
+        let mut path = std::path::PathBuf::from("/");
+        path.push(name);
+        let mut s = comp.create_stream(&path).expect("harness: cfb create_stream");
+        s.write_all(&data).expect("harness: cfb write");
+    }
+    comp.flush().expect("harness: cfb flush");
+    let bytes = comp.into_inner().into_inner();
+    open_bytes(st, bytes)
+}
+
 pub fn pkg_cmd(st: &mut State, name: &str, args: &[Sx]) -> Option<Sx> {
     match (name, args) {
+        ("add_signature", []) => {
+            if st.pkg.is_none() {
+                return Some(Sx::sym("nopkg"));
+            }
+            Some(add_signature(st))
+        }
+        ("readonly_session", [mode]) => {
+            if st.pkg.is_none() {
+                return Some(Sx::sym("nopkg"));
+            }
+            Some(readonly_session(st, mode.as_sym()))
+        }
         ("x_cp_roundtrip_pkg", [id, text, mode]) => Some(cp_roundtrip_pkg(id.as_int() as i32, &text.as_string(), mode.as_sym())),
         ("create", [t]) => {
             let medium = Medium::new(Vec::new());
@@ -313,7 +403,7 @@ pub fn pkg_cmd(st: &mut State, name: &str, args: &[Sx]) -> Option<Sx> {
                 "create_table" | "drop_table" | "insert" | "delete" | "update" | "select" | "tables" | "ptype" | "db_cp"
                     | "set_db_cp" | "streams" | "has_stream" | "read_stream" | "write_stream" | "remove_stream" | "has_sig"
                     | "remove_sig" | "sum_get" | "sum_set" | "sum_clear" | "flush" | "reopen" | "raw" | "rows" | "stream_data"
-                    | "writes" | "snapshot"
+                    | "writes" | "snapshot" | "x_raw"
             ) {
                 return None;
             }
@@ -323,7 +413,7 @@ pub fn pkg_cmd(st: &mut State, name: &str, args: &[Sx]) -> Option<Sx> {
                 }
                 return Some(reopen(st, args[0].as_sym()));
             }
-            if name == "raw" {
+            if name == "raw" || name == "x_raw" {
                 return Some(match &st.medium {
                     Some(m) => raw_sx(m.snapshot()),
                     None => Sx::sym("nopkg"),
